@@ -77,6 +77,15 @@ type Event struct {
 	Envs   []Env  `json:"envs,omitempty"`
 	Msgs   []Msg  `json:"msgs,omitempty"`
 	Faults []bool `json:"faults,omitempty"`
+	// begin events only: transactions that are only SIMULATED (baseapp.Simulate: ante handler and messages run on a
+	// branch of the state that is thrown away).  They are never delivered and must change nothing: in the model they
+	// do not exist at all, so any trace they leave (in keeper memory, package variables, ...) shows up as a disagreement.
+	Sims []SimTx `json:"sims,omitempty"`
+}
+
+type SimTx struct {
+	Oracle bool  `json:"oracle,omitempty"`
+	Msgs   []Msg `json:"msgs"`
 }
 
 type GenTenant struct {
@@ -638,6 +647,19 @@ func (e *Exec) Run() []Obs {
 				}
 				if coq != "" {
 					applied = append(applied, coq)
+				}
+			}
+			for _, sim := range ev.Sims {
+				var msgs []sdk.Msg
+				for _, m := range sim.Msgs {
+					msgs = append(msgs, e.toSdkMsg(m))
+				}
+				ts := TxSpec{Msgs: msgs, Gas: 300000}
+				if !sim.Oracle {
+					ts.Fee, ts.Gas = settlementFee(sim.Msgs)
+				}
+				if serr := c.Simulate(ts); serr != "" {
+					log += "sim: " + serr + "; "
 				}
 			}
 			out = append(out, Obs{Kind: "begin", Class: "ok", Log: log, EnvCoq: applied})
